@@ -442,7 +442,8 @@ var wsTypes = []string{"connection_init", "connection_terminate", "start", "stop
 
 var wsPayloads = []string{"#absent", "null", "true", "0", `"s"`, "[]", "[1,[2,[3]]]", "{}", `{"query":"{ q1 }"}`, `{"query":"subscription { count(n: 2) }"}`, `{"query":1}`,
 	`{"query":null}`, `{"query":"{ q1 }","variables":[]}`, `{"query":"{ q1 }","variables":null,"operationName":null,"extensions":null}`, `{"query":"{"}`, `{"query":"{ nope }"}`,
-	`{"a":{"b":{"c":[[[{"d":null}]]]}}}`, `{"query":"{ q1 }","extensions":{"persistedQuery":1}}`, `{"headers":1,"query":"{ q1 }"}`, `{"query":"mutation { m1 }","operationName":"Zzz"}`}
+	`{"query":"subscription { count(n: 2) @skip(if: true) }"}`, `{"query":"subscription($s: Boolean!) { s1 @include(if: $s) }","variables":{"s":false}}`,
+	`{"a":{"b":{"c":[[[{"d":null}]]]}}}`, `{"Authorization":42,"token":{"x":1},"n":[1]}`, `{"Authorization":null,"token":true}`, `{"authorization":["a"],"token":"t"}`, `{"query":"{ q1 }","extensions":{"persistedQuery":1}}`, `{"headers":1,"query":"{ q1 }"}`, `{"query":"mutation { m1 }","operationName":"Zzz"}`}
 
 var wsIDs = []string{"#absent", `""`, `"1"`, `"live"`, `"done"`, "1", "null", "{}", `["a"]`, "#big"}
 
